@@ -340,6 +340,20 @@ class PDFXRefStream(PDFBaseXRef):
             raise PDFKeyError(objid)
 
 
+def unpad_aes(padded: bytes) -> bytes:
+    """Remove the padding of AES-encrypted strings and streams.
+
+    ISO 32000-1 7.6.2: the plaintext is padded to a multiple of 16 bytes with
+    n bytes of value n (1 <= n <= 16).  Data without well-formed padding is
+    returned unchanged.
+    """
+    if padded:
+        n = padded[-1]
+        if 1 <= n <= 16 and n <= len(padded) and padded[-n:] == bytes((n,)) * n:
+            return padded[:-n]
+    return padded
+
+
 class PDFStandardSecurityHandler:
     PASSWORD_PADDING = (
         b"(\xbfN^Nu\x8aAd\x00NV\xff\xfa\x01\x08"
@@ -548,7 +562,7 @@ class PDFStandardSecurityHandlerV4(PDFStandardSecurityHandler):
             modes.CBC(initialization_vector),
             backend=default_backend(),
         )  # type: ignore
-        return cipher.decryptor().update(ciphertext)  # type: ignore
+        return unpad_aes(cipher.decryptor().update(ciphertext))  # type: ignore
 
 
 class PDFStandardSecurityHandlerV5(PDFStandardSecurityHandlerV4):
@@ -672,7 +686,7 @@ class PDFStandardSecurityHandlerV5(PDFStandardSecurityHandlerV4):
             modes.CBC(initialization_vector),
             backend=default_backend(),
         )  # type: ignore
-        return cipher.decryptor().update(ciphertext)  # type: ignore
+        return unpad_aes(cipher.decryptor().update(ciphertext))  # type: ignore
 
 
 class PDFDocument:
